@@ -5,7 +5,7 @@ from translators import tr_c18
 
 PID = "C18"
 CLAIM = True
-MANIFEST_TEXT = ("39 Lean 4 theorems for ALL strings: the character-level transcription of processPath (path.cc, pass by pass) "
+MANIFEST_TEXT = ("41 Lean 4 theorems for ALL strings: the character-level transcription of processPath (path.cc, pass by pass) "
                  "terminates (its '/../' loop leaves through break within |text|+1 iterations) and equals the component-level "
                  "specification render(denote p); the result is in the documented normal form, denotes the same location, is "
                  "idempotent and absolute paths never leave the root; prettyPath follows its table, preserves the location, is "
@@ -16,7 +16,7 @@ MANIFEST_TEXT = ("39 Lean 4 theorems for ALL strings: the character-level transc
                  "mixed absolute/relative or more leading '..' in the base; otherwise the longest common list of components "
                  "removed), its result is sanitised and relative and, concatenated back onto the base, denotes the target and "
                  "sanitises to the sanitised target; "
-                 "hasPrefix/hasSuffix equal their plain definitions; formatString returns the complete text for every length up "
+                 "hasPrefix/hasSuffix (bodies REGENERATED from stringutility.hh) equal their plain definitions; formatString returns the complete text for every length up "
                  "to INT_MAX and for ANY stack-buffer size (the size, the 'fits the stack buffer' test and the heap-buffer size are "
                  "re-read from stringutility.hh and proved sound for all values), throws for longer texts and for conversion "
                  "errors.  Each run compiles the current path.cc/stringutility.hh and compares them with the "
@@ -30,14 +30,14 @@ MANIFEST_NOTE = ("Trusted: Lean kernel (+propext/Classical.choice/Quot.sound), t
                  "loops of processPath/relativePath, for the snprintf calls/throw checks of formatString and for the printf subset "
                  "(checked by the exhaustive differential run only), harness/driver string encoding, g++/libstdc++/ASan/UBSan, the C library's snprintf (formatString is "
                  "modelled as 'snprintf into the stack buffer, else heap' on the ideal text or conversion error; std::bad_alloc is "
-                 "not modelled).  If a refactoring takes pathIndicatesDirectory/concatPaths/prettyPath/the formatString skeleton/the "
+                 "not modelled).  If a refactoring takes hasPrefix/hasSuffix/pathIndicatesDirectory/concatPaths/prettyPath/the formatString skeleton/the "
                  "buffer declaration/the doc tables outside the translator's grammar the translator falls back to its built-in "
                  "transcription (counted as translator_fallbacks in the evidence), the run is widened by the search batches, and "
                  "that item is tied by the differential run only.  Needs "
                  "fixes/C18_fmt_intmax.patch: the unpatched formatString overflows a signed int for a result of exactly INT_MAX "
                  "characters (thorough tier: replay 'F 2147483647').")
 TECHNIQUE = ("Lean 4 proof (char-level model refines component-level spec; termination; exact relativePath) + translator for the "
-             "decision lists, both prettyPath bodies, the formatString size test/heap size/buffer size and documentation tables + exhaustive differential correspondence with independent "
+             "decision lists, hasPrefix/hasSuffix, both prettyPath bodies, the formatString size test/heap size/buffer size and documentation tables + exhaustive differential correspondence with independent "
              "resolver oracle")
 TRANSLATORS = [tr_c18.translate]
 HARNESS = dict(
@@ -54,7 +54,7 @@ RULE = ("cases: docrows = every row of the example tables in the current path.hh
         "concatenations (associativity) and the string-level round trip; ur/br = seeded random longer "
         "paths built from components {'', '.', '..', names, names with dots/blanks/upper case/NUL/bytes >= 0x80} and related "
         "pairs (prefix, suffix, shared leading components, one letter's case flipped, 1 in 40 with a path of 200-3100 "
-        "characters); ul = paths of 200-3100 characters; uh (thorough) = 2 paths of 76-80 k characters; bl = strings of length 0-3, cap-2..cap+2, 2*cap with "
+        "characters); ul = paths of 200-3100 characters; uh (thorough) = 2 paths of 76-80 k characters; bl = strings of length 0-3, cap-2..cap+2, 2*cap, 4100, 5000 with "
         "prefixes/suffixes/one-character changes/NUL; f = formatString with every result length 0..min(2*cap+100, 4200), "
         "cap-8..cap+8, 2*cap-8..2*cap+8 and random ones there (cap = the stack buffer size read from the current "
         "stringutility.hh), arguments int/long/long long/unsigned/size_t/char/wint_t/const char* (0-6 of them), flags - + 0, "
@@ -64,7 +64,7 @@ RULE = ("cases: docrows = every row of the example tables in the current path.hh
         "oracle-checked (non-trivial)")
 ASSUMPTIONS = [
     "the loops of processPath and relativePath and the call/throw structure of formatString are hand-written in lean/DuneVerif/Model/C18.lean; their fidelity to path.cc/stringutility.hh rests on this differential run (exhaustive up to the stated lengths)",
-    "pathIndicatesDirectory, concatPaths, both prettyPath overloads, the formatString buffer size, its 'fits the stack buffer' test and heap-buffer size, and the documentation tables are regenerated from the source by tools/translators/tr_c18.py (fail-soft: outside its grammar the built-in transcription is used, counted in distribution.translator_fallbacks, and the run is widened by the search batches)",
+    "hasPrefix, hasSuffix, pathIndicatesDirectory, concatPaths, both prettyPath overloads, the formatString buffer size, its 'fits the stack buffer' test and heap-buffer size, and the documentation tables are regenerated from the source by tools/translators/tr_c18.py (fail-soft: outside its grammar the built-in transcription is used, counted in distribution.translator_fallbacks, and the run is widened by the search batches)",
     "hasPrefix/hasSuffix take the pattern as a C string (up to the first NUL); containers and paths may contain any byte",
     "formatString is modelled on the ideal formatted text or conversion error; snprintf itself (libc, classic locale) is trusted, exercised with %d %ld %lld %u %zu %x %X %o %c %lc %s %% and the flags '-', '+', '0', a width (digits or '*') and a precision on %s; std::bad_alloc is not modelled",
     "results of 2^31-2 and 2^31-1 characters are built in the thorough tier only; for them and for widths beyond INT_MAX only the outcome class (returns/throws) is compared with the model (theorem formatString_outcome), the text by the oracle",
